@@ -840,6 +840,33 @@ func TestVerif(t *testing.T) {
 			}
 		}
 	}
+	// sweep: every single failing index, caller already cancelled / cancelled mid-flight, for small n
+	// and parallelism below, at and above n, two latency patterns (timed scenarios)
+	for _, mode := range []string{"dc", "mc"} {
+		for _, p := range []int{-1, 1, 2, 3, 7} {
+			for n := 0; n <= 5; n++ {
+				for _, lm := range []int{0, 1} {
+					base := Scenario{Kind: "timed", Mode: mode, P: p, N: n, Gmp: 2, LatMode: lm, LatSeed: env.Seed, LatMax: 5, CancelKind: "deadline"}
+					list := []Scenario{base}
+					for k := 0; k < n; k++ {
+						sc := base
+						sc.Fail = []int{k}
+						list = append(list, sc)
+					}
+					for _, c := range []int{-1, 3} {
+						sc := base
+						sc.CancelAt = c
+						list = append(list, sc)
+					}
+					for i := range list {
+						res.Count("sweep")
+						o := check(t, &list[i], nil, m, res)
+						res.Case(list[i].key(), nontrivial(&list[i], o), nil)
+					}
+				}
+			}
+		}
+	}
 	for _, f := range vlib.CorpusFiles(env.Corpus, ".json") {
 		b, err := os.ReadFile(f)
 		if err != nil {
